@@ -42,7 +42,6 @@ open Ctrmml
 /-- the statics this model accounts for (file, qualified name, type, class) -/
 def knownStatics : List (String × String × String × String) := [
   ("src/mmlc.cpp", "get_extension()::str", "char[256]", "mutable"),
-  ("src/mmlc.cpp", "output_filename()::str", "char[256]", "mutable"),
   ("src/platform/md.cpp", "MD_PCMDriver::tables_initialized", "bool", "mutable"),
   ("src/platform/md.cpp", "MD_PCMDriver::vol_table", "int8_t[16][256]", "mutable"),
   ("src/platform/mdsdrv.cpp", "MDSDRV_Platform::get_export_formats()::out", "const Platform::Format_List", "const-dynamic"),
@@ -64,8 +63,6 @@ structure Globals where
   volTable : List (List Int)
   /-- `get_extension()::str` (mmlc.cpp) -/
   extBuf : Bytes
-  /-- `output_filename()::str` (mmlc.cpp) -/
-  outBuf : Bytes
   deriving DecidableEq, Repr
 
 def zeroTable : List (List Int) := List.replicate 16 (List.replicate 256 0)
@@ -73,7 +70,7 @@ def zeroTable : List (List Int) := List.replicate 16 (List.replicate 256 0)
 /-- static storage is zero-initialised -/
 def initial : Globals :=
   { tablesInitialized := false, volTable := zeroTable,
-    extBuf := List.replicate 256 0, outBuf := List.replicate 256 0 }
+    extBuf := List.replicate 256 0 }
 
 /-- conversion to `int8_t` -/
 def int8 (n : Nat) : Int := if n % 256 < 128 then (n % 256 : Nat) else ((n % 256 : Nat) : Int) - 256
